@@ -198,6 +198,7 @@ enum FK {
 
 const KINDS: [FK; 12] = [FK::Fresh1, FK::Fresh2, FK::FreshBig, FK::FreshMax, FK::TooFar, FK::Replay, FK::Stale, FK::OtherEpoch, FK::BitFlip, FK::ForeignKey, FK::Oversize, FK::ExactMax];
 
+#[derive(Clone)]
 struct Built {
     bytes: Vec<u8>,
     kind: FK,
@@ -359,10 +360,15 @@ fn session_case(idx: u64, rng: &mut Prng, col: &mut Collector) {
         let mut script = Script::default();
         let mut second: Option<Built> = None;
         if classc {
-            if in_rx2 {
-                script.between.push(b1.bytes.clone());
-            } else {
-                script.pre_rx1.push(b1.bytes.clone());
+            // (every other time the very same frame is heard a second time while the device still listens:
+            // whatever the first copy was, the second one is a replay)
+            let twice = rng.bool() && !matches!(b1.kind, FK::Oversize);
+            let q = if in_rx2 { &mut script.between } else { &mut script.pre_rx1 };
+            q.push(b1.bytes.clone());
+            if twice {
+                q.push(b1.bytes.clone());
+                second = Some(b1.clone());
+                col.event("classc_frame_heard_twice");
             }
         } else if b1.kind == FK::Oversize || b1.kind == FK::ExactMax {
             // RX2 runs at the plan's default rate here (its payload limit is known)
@@ -418,6 +424,9 @@ fn session_case(idx: u64, rng: &mut Prng, col: &mut Collector) {
         let mut delivered: Vec<(&Built, bool)> = vec![]; // (frame, class A?)
         if classc {
             delivered.push((&b1, false));
+            if let Some(b2) = &second {
+                delivered.push((b2, false));
+            }
         } else {
             delivered.push((&b1, true));
             if let Some(b2) = &second {
